@@ -12,14 +12,10 @@
 package main
 
 import (
-	"encoding/json"
 	"fmt"
 	"os"
 	"sort"
 	"strings"
-	"sync"
-	"sync/atomic"
-	"time"
 
 	"wa-lang.org/wa/internal/zzverif/mc"
 	"wa-lang.org/wa/internal/zzverif/progs"
@@ -142,7 +138,7 @@ func main() {
 	}
 	r := mc.Start("C12")
 	maxLen := mc.Pick(r, 2, 3)
-	r.Rule("every loop body of <= max_len ownership operations (21 operations) that the reference heap-graph model marks cycle-free, in 3 loop shapes, run for N in {1,2,3,10,100} on the real compiled program with instrumented runtime; (live blocks, live bytes, heap bump pointer) recorded by the host at the end of every iteration; distinct = distinct steady-state censuses per body")
+	r.Rule("every loop body of <= max_len ownership operations (21 operations) that the reference heap-graph model marks cycle-free, in 3 loop shapes, run for N in {1,2,3,10,100} on the real compiled program with instrumented runtime; (live blocks, live bytes, heap bump pointer) recorded by the host at the end of every iteration; distinct = distinct (shape, steady-state census) pairs")
 	r.Bound("ops", len(progs.OwnOps))
 	r.Bound("max_body_len", maxLen)
 	r.Bound("iteration_counts", progs.OwnLoopNs)
@@ -153,14 +149,15 @@ func main() {
 
 	bodies := []progs.OwnHistory{{}}
 	bodies = append(bodies, progs.OwnHistories(maxLen, false)...)
+	if f := os.Getenv("C12_OPS"); f != "" { // debugging / mutant demonstration: restrict the alphabet
+		bodies = progs.OwnRestrict(bodies, f)
+		r.Cap("alphabet restricted by C12_OPS=" + f)
+	}
 	var items []progs.OwnLoopItem
 	ncyclic := 0
 	for _, h := range bodies {
 		if !progs.OwnCycleFree(h) {
 			ncyclic++
-			continue
-		}
-		if f := os.Getenv("C12_ONLY"); f != "" && !strings.Contains(pat(h), f) {
 			continue
 		}
 		for _, sh := range progs.OwnLoopShapes {
@@ -173,87 +170,58 @@ func main() {
 
 	pool := mc.NewPool(mc.NWorkers(), nil)
 	defer pool.Close()
-
-	res := make([]*rcmon.CallResult, len(items))
-	fail := make([]string, len(items))
-	var tot struct {
-		sync.Mutex
-		malloc, free, retain, release int64
-	}
-	var capped atomic.Bool
-	var runSpan func(lo, hi, attempt int)
-	runSpan = func(lo, hi, attempt int) {
-		src := progs.OwnLoopProgram(items[lo:hi])
-		var x mc.Result
-		pool.Run(1, func(int) interface{} {
-			return rcmon.Job{Src: src, N: hi - lo, Poison: []bool{false}, Record: true, ClipOut: 400}
-		}, 15*time.Minute, func(y mc.Result) { x = y })
-		var jr rcmon.JobResult
-		bad := ""
-		if x.Status != "ok" {
-			bad = "worker " + x.Status + ": " + tail(x.Stderr, 400)
-		} else if err := json.Unmarshal(x.Out, &jr); err != nil {
-			bad = "bad worker output: " + err.Error()
-		} else if jr.Err != "" {
-			bad = jr.ErrKind + ": " + jr.Err
-		}
-		if bad == "" {
-			for i := lo; i < hi; i++ {
-				c := jr.Modes[0].Cases[i-lo]
-				c.Out = tail(c.Out, 400)
-				res[i] = &c
+	rcmon.InstallRetire(pool)
+	rn := &rcmon.Runner{Pool: pool, Poison: []bool{false}, Record: true, ClipOut: 400, PerProgram: itemsPerProgram, Expired: r.Expired,
+		Render: func(idx []int) string {
+			sel := make([]progs.OwnLoopItem, len(idx))
+			for k, c := range idx {
+				sel[k] = items[c]
 			}
-			tot.Lock()
-			tot.malloc += jr.NMalloc
-			tot.free += jr.NFree
-			tot.retain += jr.NRetain
-			tot.release += jr.NRelease
-			tot.Unlock()
-			return
-		}
-		if hi-lo > 1 {
-			mid := (lo + hi) / 2
-			runSpan(lo, mid, 0)
-			runSpan(mid, hi, 0)
-			return
-		}
-		if x.Status != "ok" && attempt < 5 {
-			runSpan(lo, hi, attempt+1)
-			return
-		}
-		fail[lo] = bad
+			return progs.OwnLoopProgram(sel)
+		}}
+	outs := rn.Run(len(items))
+	if rn.Capped != "" {
+		r.Cap(rn.Capped)
 	}
-	var spans [][2]int
-	for lo := 0; lo < len(items); lo += itemsPerProgram {
-		spans = append(spans, [2]int{lo, min(lo+itemsPerProgram, len(items))})
-	}
-	mc.ParallelFor(len(spans), func(i int) {
-		if r.Expired() {
-			r.Cap("deadline")
-			capped.Store(true)
-			return
-		}
-		runSpan(spans[i][0], spans[i][1], 0)
-	})
 
 	failSig := map[string]map[string]bool{} // shape|pattern -> sigs
 	all := make([][]failure, len(items))
 	for i, it := range items {
-		if res[i] == nil {
-			if fail[i] == "" {
-				continue // capped
-			}
+		o := outs[i]
+		if o.NotRun {
+			continue
+		}
+		if o.Modes == nil {
 			r.Evals.Add(1)
-			all[i] = []failure{{"pipeline-failure", "pipeline-failure|shape=" + it.Shape, "the Wa pipeline fails on the loop program: " + tail(fail[i], 300),
-				map[string]interface{}{"body": it.H.Names(), "shape": it.Shape, "error": fail[i], "source": progs.OwnLoopCase(0, it.H, it.Shape)}}}
+			all[i] = []failure{{"pipeline-failure", "pipeline-failure|shape=" + it.Shape, "the Wa pipeline fails on the loop program: " + tail(o.Fail, 300),
+				map[string]interface{}{"body": it.H.Names(), "shape": it.Shape, "error": o.Fail, "source": progs.OwnLoopCase(0, it.H, it.Shape)}}}
+		} else if cr := o.Modes[0]; cr.Status == "hang" {
+			r.Evals.Add(1)
+			fs, _, _ := analyse(it, rcmon.CallResult{Status: "ok", Violations: cr.Violations}) // keeps the monitor verdicts
+			var keep []failure
+			for _, f := range fs {
+				if strings.HasPrefix(f.sig, "monitor:") {
+					keep = append(keep, f)
+				}
+			}
+			all[i] = append(keep, failure{"hang", "hang|shape=" + it.Shape, fmt.Sprintf("the loop program does not return (reproduced alone %d/5 times): %s", o.HangRep, tail(cr.Err, 600)),
+				map[string]interface{}{"body": it.H.Names(), "shape": it.Shape, "err": cr.Err, "source": progs.OwnLoopCase(0, it.H, it.Shape)}})
 		} else {
-			fs, steady, nruns := analyse(it, *res[i])
+			fs, steady, nruns := analyse(it, cr)
 			r.Evals.Add(int64(max(nruns, 1)))
 			all[i] = fs
-			r.Distinct(pat(it.H) + "|" + steady)
+			r.Distinct(it.Shape + "|" + steady)
 			if len(fs) == 0 && i%211 == 7 && r.WantSample() {
 				r.Sample(map[string]interface{}{"body": it.H.Names(), "shape": it.Shape, "steady_state_live_blocks/bytes": steady})
 			}
+		}
+		if len(all[i]) > 1 { // the first failure (monitor verdict, trap/hang, then leak) is the cause
+			var also []string
+			for _, f := range all[i][1:] {
+				also = append(also, f.key)
+			}
+			all[i] = all[i][:1]
+			all[i][0].replay["consequences"] = also
 		}
 		k := it.Shape + "|" + pat(it.H)
 		for _, f := range all[i] {
@@ -289,9 +257,14 @@ func main() {
 		}
 	}
 	r.Extra("failing_loop_programs", nfailing)
-	r.Extra("monitor_events", map[string]int64{"malloc": tot.malloc, "free": tot.free, "retain": tot.retain, "release": tot.release})
-	if !capped.Load() && (tot.malloc == 0 || tot.free == 0 || tot.retain == 0) {
-		r.HarnessError("vacuous: the monitor saw malloc=%d free=%d retain=%d release=%d", tot.malloc, tot.free, tot.retain, tot.release)
+	r.Extra("monitor_events", map[string]int64{"malloc": rn.NMalloc, "free": rn.NFree, "retain": rn.NRetain, "release": rn.NRelease})
+	r.Extra("programs_compiled", rn.Programs)
+	r.Extra("hangs_not_reproduced_alone", rn.UnreproducedHangs)
+	if rn.Capped == "" && (rn.NMalloc == 0 || rn.NFree == 0 || rn.NRetain == 0) {
+		r.HarnessError("vacuous: the monitor saw malloc=%d free=%d retain=%d release=%d", rn.NMalloc, rn.NFree, rn.NRetain, rn.NRelease)
+	}
+	if rn.Capped == "" && r.DistinctCount() < 10 {
+		r.HarnessError("vacuous: only %d distinct steady-state censuses", r.DistinctCount())
 	}
 	r.Finish()
 }
